@@ -186,7 +186,8 @@ def run(ctx):
         ok = True
         continue_checks = True
         if continue_checks:
-            is_cat = bool(rows) and bool(rows[0][0].get("actions")) and isinstance(rows[0][0]["actions"][0], str)
+            # Finalize turns categoricals into one-hot codes wherever they occur: in the action sets and in a logged action (also when no action set is given)
+            is_cat = bool(rows) and ((bool(rows[0][0].get("actions")) and isinstance(rows[0][0]["actions"][0], str)) or isinstance(rows[0][0].get("action"), str))
             shown = (lambda A: [a.as_onehot for a in A]) if is_cat else (lambda A: A)
             if predicts and [(c[1], c[2]) for c in pcalls] != [(r[0].get("context"), shown(r[0].get("actions"))) for r in rows]:
                 ctx.fail(["evaluate", "predict-trace"], "predict calls %s do not follow the environment order/content" % pcalls[:3], case); continue
